@@ -13,43 +13,16 @@
 //!   * (a == b) <=> cmp == Equal, partial_cmp == Some(cmp);
 //!   * a value and the same value with other definite/indefinite choices are equal;
 //!   * BigInt: cmp == comparison of the denoted integers (i128/big-endian evaluation done here).
+#[path = "pdata_common/mod.rs"]
+mod pdata_common;
 use pallas_codec::minicbor::{self, Decoder};
-use pallas_codec::utils::{Int, KeyValuePairs, MaybeIndefArray};
-use pallas_primitives::{BigInt, BoundedBytes, Constr, PlutusData};
+use pallas_codec::utils::{KeyValuePairs, MaybeIndefArray};
+use pallas_primitives::{BigInt, BoundedBytes, Constr};
+use pdata_common::*;
 use std::cmp::Ordering;
 use verif_harness::*;
 
-type PD = PlutusData;
-
 fn ord_z(o: Ordering) -> i32 { match o { Ordering::Less => -1, Ordering::Equal => 0, Ordering::Greater => 1 } }
-
-// ---------------------------------------------------------------- printing
-fn coq_flag(indef: bool) -> &'static str { if indef { "true" } else { "false" } }
-fn coq_bigint(i: &BigInt) -> String {
-    match i {
-        BigInt::Int(x) => format!("(BInt {})", coq_z(i128::from(*x))),
-        BigInt::BigUInt(b) => format!("(BigUInt {})", coq_bytes(b)),
-        BigInt::BigNInt(b) => format!("(BigNInt {})", coq_bytes(b)),
-    }
-}
-fn mia_parts(m: &MaybeIndefArray<PD>) -> (bool, &Vec<PD>) {
-    match m { MaybeIndefArray::Def(x) => (false, x), MaybeIndefArray::Indef(x) => (true, x) }
-}
-fn coq_pd(d: &PD) -> String {
-    match d {
-        PD::Constr(c) => {
-            let (f, xs) = mia_parts(&c.fields);
-            format!("(PConstr {} {} {} {})", c.tag, coq_opt(&c.any_constructor, |v| v.to_string()), coq_flag(f), coq_list(xs, coq_pd))
-        }
-        PD::Map(m) => {
-            let (f, kvs) = match m { KeyValuePairs::Def(x) => (false, x), KeyValuePairs::Indef(x) => (true, x) };
-            format!("(PMap {} {})", coq_flag(f), coq_list(kvs, |(k, v)| format!("({},{})", coq_pd(k), coq_pd(v))))
-        }
-        PD::Array(a) => { let (f, xs) = mia_parts(a); format!("(PArray {} {})", coq_flag(f), coq_list(xs, coq_pd)) }
-        PD::BigInt(i) => format!("(PBigInt {})", coq_bigint(i)),
-        PD::BoundedBytes(b) => format!("(PBytes {})", coq_bytes(b)),
-    }
-}
 
 // ---------------------------------------------------------------- running the real code
 enum Dout { Ok(PD), Eoi, Err, Panic }
@@ -137,88 +110,6 @@ fn flip_indef(d: &PD, rng: &mut Rng, all: bool) -> PD {
     }
 }
 
-// ---------------------------------------------------------------- generators
-const LENS: [usize; 12] = [0, 1, 2, 31, 63, 64, 65, 127, 128, 129, 192, 200];
-fn gen_bytes(rng: &mut Rng) -> Vec<u8> {
-    let len = if rng.chance(1, 2) { *rng.pick(&LENS) } else { rng.below(6) as usize };
-    match rng.below(4) {
-        0 => vec![0u8; len],
-        1 => { let mut v = rng.bytes(len); if len > 0 { v[0] = 0; } v }
-        _ => rng.bytes(len),
-    }
-}
-fn int_of(v: i128) -> Int { Int::try_from(v).unwrap() }
-/// the number (neg, mag) in a random representation; leading zeros added with probability 1/2
-fn repr(rng: &mut Rng, neg: bool, mag: u128) -> BigInt {
-    let fits_int = if neg { mag <= 1u128 << 64 } else { mag < 1u128 << 64 };
-    if fits_int && rng.chance(1, 3) {
-        return BigInt::Int(int_of(if neg { -(mag as i128) } else { mag as i128 }));
-    }
-    let mut bs: Vec<u8> = mag.to_be_bytes().iter().copied().skip_while(|b| *b == 0).collect();
-    if rng.bool() { let z = rng.below(4) as usize; let mut p = vec![0u8; z]; p.extend(bs); bs = p; }
-    let b = BoundedBytes::from(bs);
-    if mag == 0 { if rng.bool() { BigInt::BigUInt(b) } else { BigInt::BigNInt(b) } }
-    else if neg { BigInt::BigNInt(b) } else { BigInt::BigUInt(b) }
-}
-fn gen_mag(rng: &mut Rng) -> u128 {
-    match rng.below(8) {
-        0 => rng.below(3) as u128,
-        1 => 255 + rng.below(3) as u128,
-        2 => (1u128 << 63) - 1 + rng.below(3) as u128,
-        3 => (1u128 << 64) - 2 + rng.below(4) as u128,
-        4 => { let k = rng.below(100); (1u128 << k).wrapping_sub(1).wrapping_add(rng.below(3) as u128) }
-        5 => rng.edge_u64() as u128,
-        6 => ((rng.next() as u128) << 64 | rng.next() as u128) >> rng.below(128),
-        _ => rng.below(70000) as u128,
-    }
-}
-fn gen_bigint(rng: &mut Rng) -> BigInt {
-    match rng.below(8) {
-        0 => BigInt::BigUInt(BoundedBytes::from(gen_bytes(rng))),
-        1 => BigInt::BigNInt(BoundedBytes::from(gen_bytes(rng))),
-        2 => BigInt::Int(int_of(*rng.pick(&[0i128, 1, -1, 23, 24, -24, -25, 255, 256, -256, -257,
-            i64::MAX as i128, i64::MIN as i128, i64::MAX as i128 + 1, i64::MIN as i128 - 1,
-            u64::MAX as i128, -(1i128 << 64), -(1i128 << 64) + 1]))),
-        _ => { let m = gen_mag(rng); let neg = rng.bool(); repr(rng, neg, m) }
-    }
-}
-fn gen_tag(rng: &mut Rng) -> (u64, Option<u64>) {
-    match rng.below(6) {
-        0 => (121 + rng.below(7), None),
-        1 => (*rng.pick(&[1280u64, 1281, 1399, 1400]), None),
-        2 => (1280 + rng.below(121), None),
-        3 => (102, Some(rng.below(140))),
-        4 => (102, Some(rng.edge_u64())),
-        _ => (121, None),
-    }
-}
-fn gen_pd(rng: &mut Rng, depth: u32) -> PD {
-    let k = if depth == 0 { 3 + rng.below(2) } else { rng.below(5) };
-    let n = |rng: &mut Rng| if rng.chance(1, 12) { 24 + rng.below(3) as usize } else { rng.below(4) as usize };
-    match k {
-        0 => {
-            let (tag, any_constructor) = gen_tag(rng);
-            let len = n(rng);
-            let sub = if len > 4 { 0 } else { depth - 1 };
-            let xs: Vec<PD> = (0..len).map(|_| gen_pd(rng, sub)).collect();
-            PD::Constr(Constr { tag, any_constructor, fields: if rng.bool() { MaybeIndefArray::Indef(xs) } else { MaybeIndefArray::Def(xs) } })
-        }
-        1 => {
-            let len = n(rng);
-            let sub = if len > 4 { 0 } else { depth - 1 };
-            let kvs: Vec<(PD, PD)> = (0..len).map(|_| (gen_pd(rng, sub), gen_pd(rng, sub))).collect();
-            PD::Map(if rng.bool() { KeyValuePairs::Indef(kvs) } else { KeyValuePairs::Def(kvs) })
-        }
-        2 => {
-            let len = n(rng);
-            let sub = if len > 4 { 0 } else { depth - 1 };
-            let xs: Vec<PD> = (0..len).map(|_| gen_pd(rng, sub)).collect();
-            PD::Array(if rng.bool() { MaybeIndefArray::Indef(xs) } else { MaybeIndefArray::Def(xs) })
-        }
-        3 => PD::BigInt(gen_bigint(rng)),
-        _ => PD::BoundedBytes(BoundedBytes::from(gen_bytes(rng))),
-    }
-}
 /// a value close to `d`: equal under another representation, or differing in one place
 fn perturb(rng: &mut Rng, d: &PD) -> PD {
     match d {
